@@ -39,6 +39,16 @@ ASSUMPTIONS = [
     "compared",
     "frames of the harness itself above the four constructed callers are reported to the model "
     "as binding none of the test names (verified at run time by inspecting them)",
+    "prediction stage: for every configuration of the statement's space (kind `main`) and every "
+    "real-registry-key case (kind `builtin`) whose design was built, the part holding the term "
+    "(common; group for the group form; the response only when it is a proportion — the library "
+    "refuses to evaluate any other response on new data) is evaluated again with "
+    "`evaluate_new_data(frame of the case)`, called from outside the constructed callers while the "
+    "registries are in the state of the design-time call; the winner is observed as at design time "
+    "(observer / recorded test-function calls / for a real built-in: the new matrix equals that of "
+    "the formula with no user definition at all) and must be the scope Spec.C11.expected names, and "
+    "the model's; stateful built-ins (center, scale, bs, ...) are not looked up again by the library "
+    "(their instance is kept by the call), for them this stage observes the baseline matrix only",
     "negative `env` (frames of design_matrices / capture themselves) is outside the statement's "
     "quantifier; a handful of cases check the model's integer arithmetic only",
 ]
@@ -430,6 +440,84 @@ def baseline(cfg):
     return _BASELINE[key]
 
 
+PREDICTION_KINDS = ("main", "builtin")
+
+
+def term_part(cfg, dm):
+    """the matrix object of the design that holds the term with the name under test"""
+    formula = cfg["formula"]
+    if formula.split("~")[0].strip() not in ("y", ""):
+        # (the library evaluates a response on new data only when it is a proportion:
+        # `ResponseMatrix.evaluate_new_data` refuses every other kind by design)
+        if getattr(dm.response, "kind", None) != "proportion":
+            return "response", None
+        return "response", dm.response
+    if cfg["form"] == "group":
+        return "group", dm.group
+    return "common", dm.common
+
+
+def _part_matrix(obj):
+    m = getattr(obj, "design_matrix", obj)      # (the response part returns a bare array)
+    m = m.toarray() if hasattr(m, "toarray") else np.asarray(m)
+    return np.round(np.asarray(m, dtype=float), 9).tolist()
+
+
+_BASELINE_NEW = {}
+
+
+def baseline_new(cfg):
+    """`evaluate_new_data` of the term's part, for the formula with the real built-in and no user
+    definition at all (design and new frame: the plain base data)"""
+    from formulae import design_matrices
+    key = (cfg["formula"], cfg["form"])
+    if key not in _BASELINE_NEW:
+        data = pd.DataFrame(base_data())
+        try:
+            with contextlib.redirect_stdout(io.StringIO()):
+                dm = design_matrices(cfg["formula"], data)
+                _, obj = term_part(cfg, dm)
+                _BASELINE_NEW[key] = ("ok", _part_matrix(obj.evaluate_new_data(data)))
+        except Exception as e:  # noqa
+            _BASELINE_NEW[key] = ("error", type(e).__name__)
+    return _BASELINE_NEW[key]
+
+
+def predict(cfg, dm, out):
+    """Prediction stage: the design exists; its term is evaluated again on new data (the frame of the
+    case) from OUTSIDE the constructed callers.  The name must resolve as at design time: the
+    winner is observed in the same way (observer / recorded test-function calls / for a real
+    built-in: the new matrix equals the one of the formula with no user definition at all)."""
+    w = cfg["world"]
+    del w.seen[:], w.calls[:], w.call_args[:]
+    which, obj = term_part(cfg, dm)
+    if obj is None:
+        return
+    out["new_part"] = which
+    try:
+        with contextlib.redirect_stdout(io.StringIO()):
+            new = obj.evaluate_new_data(cfg["data"].copy())
+    except Exception as e:  # noqa
+        base = baseline_new(cfg) if cfg["real"] is not None else None
+        if base is not None and base == ("error", type(e).__name__) and not w.calls:
+            out["new_ok"] = "builtin:" + cfg["real"]       # raises exactly as without any user name
+            out["new_via"] = "same-exception-as-baseline"
+        else:
+            out["new_err"] = type(e).__name__
+        return
+    if cfg["real"] is not None and (cfg["role"] == "callee" or cfg["form"] == "encoding"):
+        if w.calls:
+            out["new_ok"] = w.calls[-1]
+        elif baseline_new(cfg) == ("ok", _part_matrix(new)):
+            out["new_ok"] = "builtin:" + cfg["real"]
+        else:
+            out["new_ok"] = "unknown:differs-from-baseline"
+    elif cfg["role"] == "arg":
+        out["new_ok"] = w.classify(w.seen[-1]) if w.seen else "unknown:observer-not-called"
+    else:
+        out["new_ok"] = w.calls[-1] if w.calls else "unknown:no-test-function-called"
+
+
 def run_impl(cfg, idx=0):
     """Run the real implementation on the case. -> canonical outcome dict."""
     from formulae import design_matrices, model_description
@@ -516,6 +604,9 @@ def run_impl(cfg, idx=0):
             terms = [t for t in dm.common.terms if t != "Intercept"]
             col = np.asarray(dm.common[terms[0]]).ravel()
             out["column"] = CODE_TAG.get(float(col[0]), "unknown:column")
+        # prediction stage (the registries are still in the state of the design-time call)
+        if cfg["desc"]["kind"] in PREDICTION_KINDS:
+            predict(cfg, dm, out)
     finally:
         TRANSFORMS.clear()
         TRANSFORMS.update(saved_t)
@@ -679,7 +770,9 @@ def explore(tier, seed, res=None, replay=None):
                 "its globals / extra_namespace bind the name, role, syntactic form, env, frame kind, "
                 "decoy bindings in the other callers); non-trivial = at least two scopes of the "
                 "configuration (decoys included) bind the name, or none does, or the env is too "
-                "deep / not an integer; distinct by configuration")
+                "deep / not an integer; distinct by configuration; the configurations of the "
+                "statement's space and the real-registry-key cases are resolved twice: by "
+                "design_matrices and by evaluate_new_data on the design")
     tables = ask([{"op": "c11_tables"}])[0]
     builtins_keys = tables["builtins_keys"]
     from formulae.transforms import TRANSFORMS
@@ -788,6 +881,24 @@ def explore(tier, seed, res=None, replay=None):
                     why = f"resolved to {impl_view}, the documented order gives {spec_view}"
                 res.failures.append({"case": case, "impl": out, "expected": spec, "why": why,
                                      "finding": None})
+        if ("new_ok" in out or "new_err" in out) and spec is not None and impl_view != "error":
+            # the same term evaluated on new data: the name resolves as the statement says (as at
+            # design time)
+            res.count("prediction-stage resolutions (evaluate_new_data after design_matrices)")
+            spec_view = spec["ok"]["t"] if "ok" in spec else "error"
+            new_view = out.get("new_ok", "error")
+            if new_view != model_view:
+                res.mismatches.append({"case": dict(case, stage="evaluate_new_data"), "impl": out,
+                                       "model": model})
+            if new_view != spec_view:
+                res.count("prediction-stage resolutions that differ from the documented order")
+                res.failures.append({
+                    "case": dict(case, stage="evaluate_new_data", part=out.get("new_part")),
+                    "impl": out, "expected": spec, "finding": None,
+                    "why": (f"design_matrices resolved the name to {impl_view}; evaluate_new_data on the "
+                            f"same design " + (f"raised {out.get('new_err')}" if new_view == "error"
+                                               else f"resolved it to {new_view}")
+                            + f", the documented order gives {spec_view}")})
         if desc.get("reuse") and impl_view == "PREV":
             # (the statement's order is given for integer `env`; whatever the Environment object
             # holds, a value that only an EARLIER call's extra_namespace bound is in none of the
